@@ -99,7 +99,7 @@ class _Inliner:
         if len(ts) != 1:
             return None
         h = ts[0]
-        if h.kind in ('lambda', 'ctor', 'dtor') or h.key in stack or h is self.f or h.file != self.f.file and h.cls != self.f.cls:
+        if h.kind in ('lambda', 'ctor', 'dtor') or h.key in stack or h is self.f or not (h.file == self.f.file or (h.cls is not None and h.cls == self.f.cls)):
             return None
         if len(h.params) != len(SX.real_args(e)) or h.d.get('virtual'):
             return None
@@ -368,6 +368,9 @@ def _sroa(prog, body):
             names = init.get('fields') or [f_['name'] for f_ in fields]
             if list(names) == [f_['name'] for f_ in fields]:
                 vals = dict(zip(names, init['items']))
+        if vals is None and init.get('k') in ('construct', 'initlist') and not (SX.real_args(init) if init['k'] == 'construct' else init.get('items')) \
+                and all(f_.get('init') is not None for f_ in fields) and not rec.get('methods'):
+            vals = {f_['name']: f_['init'] for f_ in fields}      # default member initialisers
         if vals is None:
             continue
         cands[vid] = (v, fields, vals)
@@ -410,48 +413,67 @@ def _sroa(prog, body):
     return rw(body), len(cands)
 
 
+def _writes_of(s):
+    ws = set()
+    for n in SX.walk(s):
+        w = SX.write_target(n)
+        if w:
+            l = SX.strip(w[0])
+            if SX.is_node(l) and l.get('k') == 'ref':
+                ws.add(l.get('id'))
+        if n['k'] == 'un' and n.get('op') in ('&', '++', '--') and SX.is_node(SX.strip(n.get('e'))) and SX.strip(n['e']).get('k') == 'ref':
+            ws.add(SX.strip(n['e']).get('id'))
+        if n['k'] in ('call', 'mcall', 'construct', 'opcall'):
+            # a local handed to a callee may be bound to a non-const reference: treat as written
+            for a_ in (n.get('args') or []):
+                a_ = SX.strip(a_)
+                if SX.is_node(a_) and a_.get('k') == 'ref' and a_.get('kind') in ('var', 'param') and not (a_.get('t') or '').startswith('const'):
+                    ws.add(('arg', a_.get('id')))
+    return ws
+
+
 def _copyprop(body):
-    """function-level `const T v = x;` with x a scalar local not written in any later statement: v is x"""
-    if not (SX.is_node(body) and body.get('k') == 'block'):
-        return body, 0
-    top = body['body']
-    ren = {}
-    drop = set()
-    written_in = []
-    for s in top:
-        ws = set()
-        for n in SX.walk(s):
-            w = SX.write_target(n)
-            if w:
-                l = SX.strip(w[0])
-                if SX.is_node(l) and l.get('k') == 'ref':
-                    ws.add(l.get('id'))
-            if n['k'] == 'un' and n.get('op') == '&' and SX.is_node(SX.strip(n.get('e'))) and SX.strip(n['e']).get('k') == 'ref':
-                ws.add(SX.strip(n['e']).get('id'))
-        written_in.append(ws)
-    allw = set().union(*written_in) if written_in else set()
-    for i, s in enumerate(top):
-        if s['k'] != 'decls' or len(s['d']) != 1:
-            continue
-        v = s['d'][0]
-        init = SX.strip(v.get('init')) if SX.is_node(v.get('init')) else None
-        if not (init is not None and init.get('k') == 'ref' and init.get('kind') == 'var' and init.get('id')):
-            continue
-        if _base_type(v.get('type')) not in SCALARS or (v.get('type') or '').rstrip().endswith('&'):
-            continue
-        if v['id'] in allw:
-            continue
-        src = ren.get(init['id'], init['id'])
-        if any(init['id'] in ws or src in ws for ws in written_in[i + 1:]):
-            continue
-        if _base_type(init.get('t')) != _base_type(v.get('type')):
-            continue
-        ren[v['id']] = src
-        drop.add(id(s))
-    if not ren:
-        return body, 0
-    nb = dict(body, body=[_rename_refs(s, ren) for s in top if id(s) not in drop])
-    return nb, len(ren)
+    """`[const] T v = x;` in a block, with v never written and x a scalar local not written by any later statement of that block: v is
+    x (v's scope ends with the block, and a loop around the block re-executes the declaration)"""
+    allw = _writes_of(body)
+    total = [0]
+
+    def block(b):
+        if isinstance(b, list):
+            return [block(x) for x in b]
+        if not isinstance(b, dict) or b.get('k') == 'lambda':
+            return b
+        b = {k: (block(v) if isinstance(v, (dict, list)) else v) for k, v in b.items()}
+        if b.get('k') != 'block':
+            return b
+        top = b['body']
+        written = [_writes_of(s) for s in top]
+        ren, drop = {}, set()
+        for i, s in enumerate(top):
+            if s['k'] != 'decls' or len(s['d']) != 1:
+                continue
+            v = s['d'][0]
+            init = SX.strip(v.get('init')) if SX.is_node(v.get('init')) else None
+            if not (init is not None and init.get('k') == 'ref' and init.get('kind') in ('var', 'param') and init.get('id')):
+                continue
+            if _base_type(v.get('type')) not in SCALARS or (v.get('type') or '').rstrip().endswith(('&', '*')):
+                continue
+            if v['id'] in allw or ('arg', v['id']) in allw:
+                continue
+            src = ren.get(init['id'], init['id'])
+            later = set().union(*written[i + 1:]) if written[i + 1:] else set()
+            if init['id'] in later or src in later or ('arg', init['id']) in later or ('arg', src) in later:
+                continue
+            if _base_type(init.get('t')) != _base_type(v.get('type')):
+                continue
+            ren[v['id']] = src
+            drop.add(i)
+        if not ren:
+            return b
+        total[0] += len(ren)
+        return dict(b, body=[_rename_refs(s, ren) for i, s in enumerate(top) if i not in drop])
+    nb = block(body)
+    return nb, total[0]
 
 
 def normalise(prog, f, depth=3):
